@@ -57,6 +57,11 @@ def key_directed_le(ja, jb):
     return True
 
 
+def stored_dict_eq(ja, jb):
+    """what `==` answered before it was made component-wise: coins and the stored dicts (zeros and empty policies visible)"""
+    return ja["coin"] == jb["coin"] and V.canon_ma(ja["ma"]) == V.canon_ma(jb["ma"])
+
+
 def le_patterns(ja, jb):
     """the operand shapes on which a key-directed `<=` is not component-wise (stored entries, not contents)"""
     ka, kb = stored_keys(ja), stored_keys(jb)
@@ -123,19 +128,17 @@ def check_binop(ctx, case):
         normal = V.is_normal_ma(ja["ma"]) and V.is_normal_ma(jb["ma"])
         e_eq = ca == cb
         e_le = ca[0] <= cb[0] and o_le(ca[1], cb[1])
-        if op == "le":
-            # C05.le_iff: component-wise (absent = 0) on EVERY operand pair — stored zeros, empty policies and negative
-            # quantities on either side included
-            exp = e_le
-        elif normal:
-            exp = {"eq": e_eq, "lt": e_le and not e_eq}[op]
-        elif op == "lt":
-            # C05.lt_iff_le_ne: `<` is (component-wise) `<=` and not `==`, `==` being the implementation's own on
-            # operands that store zeros (where `==` is not component-wise: outside eq_componentwise)
-            exp = e_le and not (A == B)
-        else:
-            exp = None
-            ctx.skipped += 1  # `==` on operands storing zeros: outside the theorem's hypotheses; T2 only
+        # C05.le_iff / eq_iff / lt_iff: every comparison is the component-wise relation on contents (absent = 0) on EVERY
+        # operand pair — stored zeros, empty policies, negative quantities on either side included
+        exp = {"eq": e_eq, "le": e_le, "lt": e_le and not e_eq}[op]
+        if op in ("eq", "lt"):
+            ctx.count(f"{op}:operands-" + ("normal" if normal else "storing-zeros-or-empty-policies"))
+            if op == "eq":
+                ctx.count("eq:" + ("true" if e_eq else "false"))
+                if e_eq and V.canon_value(ja) != V.canon_value(jb):
+                    ctx.count("eq:same-content-different-stored-dicts")
+                if stored_dict_eq(ja, jb) != e_eq:
+                    ctx.count("eq:stored-dict-comparison-would-differ")
         if exp is not None and r != exp:
             ctx.violation(f"{op} is not the component-wise relation", case, exp, r)
         if op in ("le", "lt"):
@@ -157,8 +160,11 @@ def check_laws(ctx, case):
         "sub_self": (a - a) == Value(0),
         "union": a.union(b) == a + b,
     }
-    if V.is_normal_ma(case["a"]["ma"]):
-        ok["cancel"] = (a + b - b) == a
+    ok["cancel"] = (a + b - b) == a          # C05.add_sub_cancel: for every well-formed a, normal or not
+    ok["eq_refl"] = (a == a) and (a == copy.deepcopy(a))
+    ok["eq_symm"] = (a == b) == (b == a)
+    if not V.is_normal_ma(case["a"]["ma"]):
+        ctx.count("laws:cancel-on-operand-storing-zeros")
     x = copy.deepcopy(a)
     x += b
     ok["iadd=add"] = V.canon_value(V.dump_value(x)) == V.canon_value(V.dump_value(a + b))
@@ -315,6 +321,47 @@ def set_entry(j, p, n, q):
     j["ma"].append([p, [[n, str(q)]]])
 
 
+EQ_KINDS = ["same-order", "zero-left", "zero-right", "empty-left", "empty-right", "zeros-both", "one-off", "one-off-hidden",
+            "coin-off", "missing-vs-nonzero"]
+
+
+def eq_pair(rng):
+    """operand pairs for `==` with equal content up to ONE injected feature: the same content in another insertion order,
+    a zero quantity / an empty policy stored on one side only (still equal), on both sides under different keys (still
+    equal), one quantity off by one, a non-zero entry on one side only, the coin off (unequal)"""
+    a = V.gen_value_json(rng, npol=3, nname=4, zeros=rng.random() < 0.3, empties=rng.random() < 0.2)
+    b = {"coin": a["coin"], "ma": V.content_to_ma_json(V.content_ma(a["ma"]), rng)}
+    kind = rng.choice(EQ_KINDS)
+    used = stored_keys(a) | stored_keys(b)
+    free = [(p.hex(), n.hex()) for p in V.POLICIES[:5] for n in V.NAMES[:6] if (p.hex(), n.hex()) not in used]
+    rng.shuffle(free)
+    absent = [p.hex() for p in V.POLICIES if p.hex() not in {q for q, _ in a["ma"]} | {q for q, _ in b["ma"]}]
+    if kind in ("zero-left", "zeros-both"):
+        set_entry(a, *free.pop(), 0)
+    if kind in ("zero-right", "zeros-both"):
+        set_entry(b, *free.pop(), 0)
+    if kind == "empty-left" and absent:
+        a["ma"].append([rng.choice(absent), []])
+    if kind == "empty-right" and absent:
+        b["ma"].append([rng.choice(absent), []])
+    if kind in ("one-off", "one-off-hidden"):
+        cells = [(i, k) for i, (_, x) in enumerate(b["ma"]) for k in range(len(x))]
+        if cells:
+            i, k = rng.choice(cells)
+            b["ma"][i][1][k][1] = str(int(b["ma"][i][1][k][1]) + rng.choice([1, -1]))
+        else:
+            set_entry(b, *free.pop(), rng.choice([1, -1]))
+        if kind == "one-off-hidden":                     # same number of stored entries on both sides
+            set_entry(a, *free.pop(), 0)
+    if kind == "missing-vs-nonzero":
+        set_entry(rng.choice([a, b]), *free.pop(), rng.choice([1, -3, 2**64]))
+    if kind == "coin-off":
+        b["coin"] = str(int(b["coin"]) + rng.choice([1, -1]))
+    if rng.random() < 0.5:
+        a, b = b, a
+    return a, b, kind
+
+
 LE_KINDS = ["plain", "greater", "left-neg", "left-zero", "right-neg", "left-neg", "left-zero", "right-neg",
             "left-empty-policy", "two"]
 
@@ -389,6 +436,12 @@ def corpus():
         {"kind": "binop", "op": "lt", "a": zero, "b": neg},
         {"kind": "binop", "op": "le", "a": {"coin": "0", "ma": [[p, []]]}, "b": zero},
         {"kind": "binop", "op": "add", "a": {"coin": "5", "ma": [[p, [[n, "7"]]]]}, "b": {"coin": "1", "ma": [[p, [[n, "-7"]]]]}},
+        # `==` by content (before the repair of `==`: False, False, False): a stored zero, an empty policy, on either side
+        {"kind": "binop", "op": "eq", "a": zq, "b": zero},
+        {"kind": "binop", "op": "eq", "a": zero, "b": zq},
+        {"kind": "binop", "op": "eq", "a": {"coin": "0", "ma": [[p, []]]}, "b": zero},
+        {"kind": "binop", "op": "eq", "a": neg, "b": zero},
+        {"kind": "binop", "op": "lt", "a": zq, "b": zero},
     ]
 
 
@@ -397,8 +450,10 @@ def run(ctx):
                 "empty policies, magnitudes beyond 2^64, pairs derived from one another to force overlap and "
                 "zero-crossing; `<=` / `<` additionally on pairs ordered component-wise up to one injected feature "
                 "(negative / zero quantity stored on the left under a name or policy the right lacks, negative quantity "
-                "stored on the right under a key the left lacks, empty policy, one component above), `<=` judged on "
-                "every pair; random histories of 10 operations over 4 shared variables with every variable "
+                "stored on the right under a key the left lacks, empty policy, one component above), `==` on pairs with "
+                "equal content up to one injected feature (other insertion order, a zero quantity / an empty policy stored on "
+                "one side or on both under different keys, one quantity or the coin off by one, a non-zero entry on one side "
+                "only); `==`, `<=`, `<` judged component-wise on EVERY pair; random histories of 10 operations over 4 shared variables with every variable "
                 "compared after every step; a case is non-trivial if it is a distinct (op, operands) / history")
     ctx.assumptions = ["aliasing freedom of the implementation is established by the differential run only "
                        "(the Lean model has no sharing)", "Python int = Lean Int (unbounded)"]
@@ -418,6 +473,10 @@ def run(ctx):
             kind += ":swapped"
         ctx.count("le-gen:" + kind)
         dispatch(ctx, {"kind": "binop", "op": rng.choice(["le", "le", "lt"]), "a": a, "b": b})
+    for _ in range(ctx.budget(1500, 60000)):
+        a, b, kind = eq_pair(rng)
+        ctx.count("eq-gen:" + kind)
+        dispatch(ctx, {"kind": "binop", "op": rng.choice(["eq", "eq", "eq", "lt", "le"]), "a": a, "b": b})
     for _ in range(n_pairs // 10):
         a, b = derived_pair(rng)
         c = V.gen_value_json(rng, npol=3, nname=4)
